@@ -347,6 +347,8 @@ class CaseRunner:
                 self.fail('conversion of the calling function fails: %s' % str(e)[:200], crec, 0, None)
         if case.get('falsy_self'):
             self.stat('falsy_receivers:' + case['falsy_self'])
+        if case.get('cf_write'):
+            self.stat('write_only_in_control_flow:%s' % ('with_global' if case.get('decl_global') else 'no_global'))
         if case.get('namespaces', 1) > 1:
             self.stat('shared_code_namespaces:%d' % case['namespaces'])
         self.stat('kind:' + case['kind'])
@@ -850,6 +852,13 @@ def forced_cases():
     # one code object, three namespaces (different __globals__), converted in sequence with equal options
     out.append(dict(base, kind='toplevel', namespaces=3, global_write=True, decorated=False))
     out.append(dict(base, kind='toplevel', namespaces=2, global_write=False, api='convert', body='for'))
+    # write-only rebinding of closed-over variables inside if / while / for bodies, with and without a `global` declaration
+    out.append(dict(base, kind='nested', cf_write=['x0', 'x1', 'x2'], decl_global=True))
+    out.append(dict(base, kind='nested', cf_write=['x0', 'x1', 'x2'], decl_global=False, body='while'))
+    out.append(dict(base, kind='nested', cf_write=['x0'], decl_global=True, free=[], free_nested=[], free_write=[],
+                    api='convert', params=[P('q0', 'pos')]))
+    out.append(dict(base, kind='method', super='super', cf_write=['x0', 'x1'], decl_global=True))
+    out.append(dict(base, kind='factory_loop', ninst=2, cf_write=['x0', 'x1', 'x2'], decl_global=True))
     # bound methods whose receiver is falsy, through every route (to_graph, convert wrapper, converted caller)
     out.append(dict(base, kind='method', super='both', falsy_self='len', api='convert'))
     out.append(dict(base, kind='method', super=None, falsy_self='bool'))
